@@ -362,7 +362,7 @@ impl<'a> Lexer<'a> {
                 } else {
                     self.column += 1;
                 }
-                self.position += 1;
+                self.position += ch.len_utf8();
             } else {
                 break;
             }
@@ -386,7 +386,7 @@ impl<'a> Lexer<'a> {
 
     fn advance(&mut self) {
         if self.position < self.input.len() {
-            self.position += 1;
+            self.position += self.current_char().len_utf8();
             self.column += 1;
         }
     }
